@@ -30,7 +30,7 @@ CLASSES = ("scaled", "pos_scaled", "diag", "pos_diag", "tri_def", "tri_pd", "den
 
 
 def gen_cases(tier: str, seed: int):
-    n = {"quick": 360, "thorough": 4800}[tier]
+    n = {"quick": 360, "thorough": 40000}[tier]
     yield {"cls": "softabs", "seed": [seed, 0], "size": 3, "gap": "equal", "directed": True}
     yield {"cls": "softabs", "seed": [seed, 1], "size": 4, "gap": "near", "directed": True}
     yield {"cls": "softabs", "seed": [seed, 2], "size": 3, "gap": "exact", "directed": True}
